@@ -279,6 +279,20 @@ def check_obscure_region(ctx, inst, arms=None):
             c = b.callee(bi)
             if c is not None and c.best_hash == b.hash:
                 ctx.fail(inst, ctx.site(b, bi), 'recursive call inside the %s arm of the obscure region' % name, key='%s|rec|%s' % (inst, name))
+        if name == 'Compress' and len(rds) == 2:
+            # `match self.compress() { Ok(c) => c, Err(_) => self.clone() }`: the fallible sink's payload on its Ok edge, self on its Err edge
+            vs = [strip_sites(detry(r[2])) for r in rds]
+            pay = [i for i, v in enumerate(vs) if m_call(v[1] if v[0] == 'vfield' and v[2] == 'Ok' else v, name='compress', self_suffix='Envelope') is not None]
+            own = [i for i, v in enumerate(vs) if v == ('param', 1)]
+            if len(pay) == 1 and len(own) == 1:
+                pv = vs[pay[0]]
+                ct = strip_sites(pv[1] if pv[0] == 'vfield' and pv[2] == 'Ok' else pv)
+                okedge, _i1 = guard_dominates(b, tb, [rds[pay[0]][0]], lambda x: x[0] == 'discr' and strip_sites(detry(x[1])) == ct, 0)
+                erredge, _i2 = guard_dominates(b, tb, [rds[own[0]][0]], lambda x: x[0] == 'discr' and strip_sites(detry(x[1])) == ct, 1)
+                if strip_sites(m_call(ct, name='compress', self_suffix='Envelope')[0]) == ('param', 1) and okedge and erredge:
+                    ctx.ok(inst, ctx.site(b, rds[pay[0]][0], rds[pay[0]][1]), 'action Compress replaces the whole element by compress(self) on its Ok edge and keeps self unchanged on its Err edge',
+                           sample=fmt(pv))
+                    continue
         if len(rds) != 1:
             ctx.fail(inst, ctx.site(b, tgt), 'action arm %s has %d results' % (name, len(rds)), key='%s|shape|%s' % (inst, name))
             continue
